@@ -1,24 +1,45 @@
 import FqModel.C14Csv
-/-! C14 helper lemmas: CSV round trip (core Lean only). -/
+/-! C14 helper lemmas: CSV round trip for every delimiter (core Lean only). -/
 namespace Proofs.C14Csv
 open FqModel.Csv FqModel.Xml
 
+/-- the delimiters both directions accept: not '"', LF, CR, and not the comment character '#' -/
+structure DelimOK (d : Char) : Prop where
+  nq : (d == '"') = false
+  nl : (d == '\n') = false
+  ncr : (d == '\r') = false
+  nh : (d == '#') = false
+
+theorem delimOK_comma : DelimOK ',' := ⟨by decide, by decide, by decide, by decide⟩
+
 /-! ### fields -/
 
-theorem readUnquoted_plain (f more : List Char) (h : ∀ c ∈ f, (c == ',') = false ∧ (c == '\n') = false) :
-    readUnquoted (f ++ ',' :: more) = ⟨f, more, false⟩ ∧ readUnquoted (f ++ '\n' :: more) = ⟨f, more, true⟩ := by
+theorem readUnquoted_plain (d : Char) (f more : List Char) (h : ∀ c ∈ f, (c == d) = false ∧ (c == '\n') = false) :
+    readUnquoted d (f ++ d :: more) = ⟨f, more, false⟩ ∧
+    ((d == '\n') = false → readUnquoted d (f ++ '\n' :: more) = ⟨f, more, true⟩) := by
   induction f with
-  | nil => simp [readUnquoted]
+  | nil =>
+    constructor
+    · simp [readUnquoted]
+    · intro hd
+      have : ('\n' == d) = false := by
+        rw [Bool.eq_false_iff] at hd ⊢; intro e; apply hd; simp at e ⊢; exact e.symm
+      simp [readUnquoted, this]
   | cons c cs ih =>
     obtain ⟨h1, h2⟩ := h c (List.mem_cons_self ..)
     obtain ⟨i1, i2⟩ := ih (fun x hx => h x (List.mem_cons_of_mem _ hx))
-    simp [readUnquoted, h1, h2, i1, i2]
+    constructor
+    · simp [readUnquoted, h1, h2, i1]
+    · intro hd; simp [readUnquoted, h1, h2, i2 hd]
 
-theorem readQuoted_esc (f : List Char) : ∀ (acc more : List Char),
-    readQuoted (f.flatMap escQuote ++ '"' :: ',' :: more) acc = ⟨acc.reverse ++ f, more, false⟩ ∧
-    readQuoted (f.flatMap escQuote ++ '"' :: '\n' :: more) acc = ⟨acc.reverse ++ f, more, true⟩ := by
+theorem readQuoted_esc (d : Char) (hd : DelimOK d) (f : List Char) : ∀ (acc more : List Char),
+    readQuoted d (f.flatMap escQuote ++ '"' :: d :: more) acc = ⟨acc.reverse ++ f, more, false⟩ ∧
+    readQuoted d (f.flatMap escQuote ++ '"' :: '\n' :: more) acc = ⟨acc.reverse ++ f, more, true⟩ := by
+  have hnl : ('\n' == d) = false := by
+    have := hd.nl
+    rw [Bool.eq_false_iff] at this ⊢; intro e; apply this; simp at e ⊢; exact e.symm
   induction f with
-  | nil => intro acc more; simp [readQuoted]
+  | nil => intro acc more; simp [readQuoted, hd.nq, hnl]
   | cons c cs ih =>
     intro acc more
     by_cases hc : c = '"'
@@ -32,8 +53,8 @@ theorem readQuoted_esc (f : List Char) : ∀ (acc more : List Char),
       · rw [readQuoted.eq_def]; simp [hb, i1]
       · rw [readQuoted.eq_def]; simp [hb, i2]
 
-theorem special_of_not_needs (f : List Char) (h : needsQuotes f = false) :
-    (∀ c ∈ f, isSpecial c = false) ∧ (∀ c r, f = c :: r → uniSpace c = false) := by
+theorem special_of_not_needs (d : Char) (f : List Char) (h : needsQuotes d f = false) :
+    (∀ c ∈ f, isSpecial d c = false) ∧ (∀ c r, f = c :: r → uniSpace c = false) := by
   cases f with
   | nil => exact ⟨(by intro c hc; cases hc), (by intro c r e; cases e)⟩
   | cons x xs =>
@@ -49,52 +70,74 @@ theorem special_of_not_needs (f : List Char) (h : needsQuotes f = false) :
 theorem trimLead_id (c : Char) (r : List Char) (h : (uniSpace c && c != '\n') = false) : trimLead (c :: r) = c :: r := by
   simp [trimLead, h]
 
-/-- whatever the field, its written form followed by a comma / line end is read back as that field -/
-theorem readField_writeField (f more : List Char) :
-    readField (writeField f ++ ',' :: more) = ⟨f, more, false⟩ ∧
-    readField (writeField f ++ '\n' :: more) = ⟨f, more, true⟩ := by
+/-- the (possibly trimmed) start of a field is left alone when its first character is not white
+    space, or when trimming is off -/
+theorem trim_head (d c : Char) (r : List Char) (h : trimOf d = true → (uniSpace c && c != '\n') = false) :
+    (if trimOf d then trimLead (c :: r) else c :: r) = c :: r := by
+  by_cases ht : trimOf d = true
+  · simp [ht, trimLead_id c r (h ht)]
+  · simp [ht]
+
+theorem readField_start (d c : Char) (r : List Char) (h : trimOf d = true → (uniSpace c && c != '\n') = false) :
+    readField d (c :: r) = if c == '"' then readQuoted d r [] else readUnquoted d (c :: r) := by
+  unfold readField
+  rw [trim_head d c r h]
+
+theorem quote_not_space : (uniSpace '"' && '"' != '\n') = false := by decide +kernel
+theorem nl_not_trimmed : (uniSpace '\n' && '\n' != '\n') = false := by decide +kernel
+
+/-- whatever the field, its written form followed by the delimiter / a line end is read back as
+    that field -/
+theorem readField_writeField (d : Char) (hd : DelimOK d) (f more : List Char) :
+    readField d (writeField d f ++ d :: more) = ⟨f, more, false⟩ ∧
+    readField d (writeField d f ++ '\n' :: more) = ⟨f, more, true⟩ := by
   unfold writeField
-  by_cases hq : needsQuotes f = true
+  by_cases hq : needsQuotes d f = true
   · simp only [hq, if_true, List.cons_append, List.append_assoc]
-    obtain ⟨i1, i2⟩ := readQuoted_esc f [] more
-    have ht : ∀ r, trimLead ('"' :: r) = '"' :: r := fun r => trimLead_id '"' r (by decide)
-    simp [readField, ht, i1, i2]
-  · have hq' : needsQuotes f = false := by simpa using hq
+    obtain ⟨i1, i2⟩ := readQuoted_esc d hd f [] more
+    rw [readField_start d '"' _ (fun _ => quote_not_space), readField_start d '"' _ (fun _ => quote_not_space)]
+    simp only [beq_self_eq_true, if_true, List.nil_append, List.cons_append] at i1 i2 ⊢
+    exact ⟨by simpa using i1, by simpa using i2⟩
+  · have hq' : needsQuotes d f = false := by simpa using hq
     simp only [hq', Bool.false_eq_true, if_false]
-    obtain ⟨hsp, hhead⟩ := special_of_not_needs f hq'
-    have hplain : ∀ c ∈ f, (c == ',') = false ∧ (c == '\n') = false := by
+    obtain ⟨hsp, hhead⟩ := special_of_not_needs d f hq'
+    have hplain : ∀ c ∈ f, (c == d) = false ∧ (c == '\n') = false := by
       intro c hc
       have := hsp c hc
       simp only [isSpecial, Bool.or_eq_false_iff] at this
       exact ⟨this.2, this.1.1.1⟩
-    obtain ⟨u1, u2⟩ := readUnquoted_plain f more hplain
+    obtain ⟨u1, u2⟩ := readUnquoted_plain d f more hplain
+    have u2 := u2 hd.nl
     cases f with
     | nil =>
-      simp only [List.nil_append]
-      have t1 : trimLead (',' :: more) = ',' :: more := trimLead_id _ _ (by decide)
-      have t2 : trimLead ('\n' :: more) = '\n' :: more := trimLead_id _ _ (by decide)
-      simp only [List.nil_append] at u1 u2
-      simp [readField, t1, t2, u1, u2]
+      simp only [List.nil_append] at u1 u2 ⊢
+      have hdsp : trimOf d = true → (uniSpace d && d != '\n') = false := by
+        intro ht; simp only [trimOf, Bool.not_eq_true'] at ht; simp [ht]
+      rw [readField_start d d more hdsp, readField_start d '\n' more (fun _ => nl_not_trimmed)]
+      simp only [hd.nq, show ('\n' == '"') = false by decide, Bool.false_eq_true, if_false]
+      exact ⟨u1, u2⟩
     | cons x xs =>
       have hx : uniSpace x = false := hhead x xs rfl
       have hxq : (x == '"') = false := by
         have := hsp x (List.mem_cons_self ..)
         simp only [isSpecial, Bool.or_eq_false_iff] at this
         exact this.1.2
-      have t1 : ∀ r, trimLead (x :: r) = x :: r := fun r => trimLead_id x r (by simp [hx])
       simp only [List.cons_append] at u1 u2 ⊢
-      simp [readField, t1, hxq, u1, u2]
+      rw [readField_start d x _ (fun _ => by simp [hx]), readField_start d x _ (fun _ => by simp [hx])]
+      simp only [hxq, Bool.false_eq_true, if_false]
+      exact ⟨u1, u2⟩
 
 /-! ### records -/
 
-theorem writeFields_cons (f : Field) (r : Row) (tail : List Char) :
-    writeFields (f :: r) ++ tail = writeField f ++ (if r = [] then tail else ',' :: (writeFields r ++ tail)) := by
+theorem writeFields_cons (d : Char) (f : Field) (r : Row) (tail : List Char) :
+    writeFields d (f :: r) ++ tail = writeField d f ++ (if r = [] then tail else d :: (writeFields d r ++ tail)) := by
   cases r with
   | nil => simp [writeFields]
   | cons g r' => simp [writeFields]
 
-theorem readRecord_row (r : Row) (hne : r ≠ []) : ∀ (fuel : Nat) (rest : List Char) (acc : Row), r.length ≤ fuel →
-    readRecord fuel (writeFields r ++ '\n' :: rest) acc = (acc.reverse ++ r, rest) := by
+theorem readRecord_row (d : Char) (hd : DelimOK d) (r : Row) (hne : r ≠ []) :
+    ∀ (fuel : Nat) (rest : List Char) (acc : Row), r.length ≤ fuel →
+    readRecord d fuel (writeFields d r ++ '\n' :: rest) acc = (acc.reverse ++ r, rest) := by
   induction r with
   | nil => exact absurd rfl hne
   | cons f r ih =>
@@ -104,9 +147,9 @@ theorem readRecord_row (r : Row) (hne : r ≠ []) : ∀ (fuel : Nat) (rest : Lis
     by_cases hr : r = []
     · subst hr
       simp only [if_true]
-      simp [readRecord, (readField_writeField f rest).2]
+      simp [readRecord, (readField_writeField d hd f rest).2]
     · simp only [hr, if_false]
-      simp only [readRecord, (readField_writeField f (writeFields r ++ '\n' :: rest)).1, Bool.false_eq_true, if_false]
+      simp only [readRecord, (readField_writeField d hd f (writeFields d r ++ '\n' :: rest)).1, Bool.false_eq_true, if_false]
       rw [ih hr fu rest (f :: acc) (by simp at hf; omega)]
       simp
 
@@ -116,31 +159,31 @@ theorem readRecord_row (r : Row) (hne : r ≠ []) : ∀ (fuel : Nat) (rest : Lis
     first field not starting with '#' -/
 def RowOK (r : Row) : Prop := r ≠ [] ∧ r ≠ [[]] ∧ ∀ f rest c cs, r = f :: rest → f = c :: cs → c ≠ '#'
 
-theorem writeField_head (f : Field) (c : Char) (cs : List Char) (h : writeField f = c :: cs) (hf : ∀ x xs, f = x :: xs → x ≠ '#') :
-    (c == '#') = false ∧ (c == '\n') = false := by
+theorem writeField_head (d : Char) (f : Field) (c : Char) (cs : List Char) (h : writeField d f = c :: cs)
+    (hf : ∀ x xs, f = x :: xs → x ≠ '#') : (c == '#') = false ∧ (c == '\n') = false := by
   unfold writeField at h
-  by_cases hq : needsQuotes f = true
+  by_cases hq : needsQuotes d f = true
   · simp only [hq, if_true, List.cons_append, List.cons.injEq] at h
     rw [← h.1]; exact ⟨by decide, by decide⟩
-  · have hq' : needsQuotes f = false := by simpa using hq
+  · have hq' : needsQuotes d f = false := by simpa using hq
     simp only [hq', Bool.false_eq_true, if_false] at h
-    obtain ⟨hsp, _⟩ := special_of_not_needs f hq'
+    obtain ⟨hsp, _⟩ := special_of_not_needs d f hq'
     have h1 := hf c cs h
     have h2 := hsp c (by rw [h]; exact List.mem_cons_self ..)
     simp only [isSpecial, Bool.or_eq_false_iff] at h2
     exact ⟨by simpa using h1, h2.1.1.1⟩
 
-theorem writeRow_head (r : Row) (h : RowOK r) (rest : List Char) :
-    ∃ c t, writeRow r ++ rest = c :: t ∧ (c == '#') = false ∧ (c == '\n') = false := by
+theorem writeRow_head (d : Char) (hd : DelimOK d) (r : Row) (h : RowOK r) (rest : List Char) :
+    ∃ c t, writeRow d r ++ rest = c :: t ∧ (c == '#') = false ∧ (c == '\n') = false := by
   obtain ⟨hne, hnot, hhash⟩ := h
   cases r with
   | nil => exact absurd rfl hne
   | cons f r' =>
     unfold writeRow
     rw [List.append_assoc, writeFields_cons]
-    cases hw : writeField f with
+    cases hw : writeField d f with
     | cons c cs =>
-      exact ⟨c, _, by simp only [List.cons_append, List.singleton_append]; rfl, writeField_head f c cs hw (fun x xs e => hhash f r' x xs rfl e)⟩
+      exact ⟨c, _, by simp only [List.cons_append]; rfl, writeField_head d f c cs hw (fun x xs e => hhash f r' x xs rfl e)⟩
     | nil =>
       have hf : f = [] := by
         unfold writeField at hw
@@ -150,51 +193,59 @@ theorem writeRow_head (r : Row) (h : RowOK r) (rest : List Char) :
       subst hf
       have hr : r' ≠ [] := by intro e; subst e; exact hnot rfl
       simp only [hr, if_false, List.nil_append]
-      exact ⟨',', _, rfl, by decide, by decide⟩
+      exact ⟨d, _, rfl, hd.nh, hd.nl⟩
 
-theorem writeRow_length (r : Row) : r.length ≤ (writeRow r).length := by
+theorem writeRow_length (d : Char) (r : Row) : r.length ≤ (writeRow d r).length := by
   unfold writeRow
   induction r with
   | nil => simp
   | cons f r ih =>
-    have := writeFields_cons f r ['\n']
+    have := writeFields_cons d f r ['\n']
     rw [this]
     split
     · rename_i h; subst h; simp
     · simp only [List.length_append, List.length_cons] at ih ⊢; omega
 
-theorem toCsv_length (rows : List Row) : rows.length ≤ (toCsv rows).length := by
+theorem toCsv_length (d : Char) (rows : List Row) : rows.length ≤ (toCsvWith d rows).length := by
   induction rows with
-  | nil => simp [toCsv]
+  | nil => simp [toCsvWith]
   | cons r rs ih =>
-    simp only [toCsv, List.flatMap_cons, List.length_append, List.length_cons] at ih ⊢
-    have : 1 ≤ (writeRow r).length := by simp [writeRow]
+    simp only [toCsvWith, List.flatMap_cons, List.length_append, List.length_cons] at ih ⊢
+    have : 1 ≤ (writeRow d r).length := by simp [writeRow]
     omega
 
-theorem readAll_rows (k : Nat) (rows : List Row) (hok : ∀ r ∈ rows, RowOK r ∧ r.length = k) :
+theorem readAll_step (d : Char) (hd : DelimOK d) (r : Row) (hr : RowOK r) (rs : List Row) (fu : Nat) (n : Option Nat)
+    (acc : List Row) :
+    readAll d (fu + 1) (toCsvWith d (r :: rs)) n acc =
+      match n with
+      | none => readAll d fu (toCsvWith d rs) (some r.length) (r :: acc)
+      | some k => if r.length == k then readAll d fu (toCsvWith d rs) n (r :: acc) else none := by
+  obtain ⟨c, t, hT, h1, h2⟩ := writeRow_head d hd r hr (toCsvWith d rs)
+  have hrec := readRecord_row d hd r hr.1 ((writeRow d r ++ toCsvWith d rs).length + 1) (toCsvWith d rs) []
+    (by have := writeRow_length d r; simp only [List.length_append]; omega)
+  have htext : toCsvWith d (r :: rs) = writeRow d r ++ toCsvWith d rs := by simp [toCsvWith]
+  have hrec' : readRecord d ((c :: t).length + 1) (c :: t) [] = (r, toCsvWith d rs) := by
+    rw [← hT]
+    simpa [writeRow] using hrec
+  rw [htext, hT]
+  simp only [readAll, h1, h2, Bool.false_eq_true, if_false, hrec']
+  cases n <;> rfl
+
+theorem readAll_rows (d : Char) (hd : DelimOK d) (k : Nat) (rows : List Row) (hok : ∀ r ∈ rows, RowOK r ∧ r.length = k) :
     ∀ (fuel : Nat) (acc : List Row), rows.length < fuel →
-      readAll fuel (toCsv rows) (some k) acc = some (acc.reverse ++ rows) := by
+      readAll d fuel (toCsvWith d rows) (some k) acc = some (acc.reverse ++ rows) := by
   induction rows with
   | nil =>
     intro fuel acc hf
     obtain ⟨fu, rfl⟩ : ∃ fu, fuel = fu + 1 := ⟨fuel - 1, by simp at hf; omega⟩
-    simp [toCsv, readAll]
+    simp [toCsvWith, readAll]
   | cons r rs ih =>
     intro fuel acc hf
     obtain ⟨fu, rfl⟩ : ∃ fu, fuel = fu + 1 := ⟨fuel - 1, by simp at hf; omega⟩
     obtain ⟨hr, hk⟩ := hok r (List.mem_cons_self ..)
-    have hrs := fun x hx => hok x (List.mem_cons_of_mem _ hx)
-    obtain ⟨c, t, hT, h1, h2⟩ := writeRow_head r hr (toCsv rs)
-    have hrec := readRecord_row r hr.1 ((writeRow r ++ toCsv rs).length + 1) (toCsv rs) []
-      (by have := writeRow_length r; simp only [List.length_append]; omega)
-    have htext : toCsv (r :: rs) = writeRow r ++ toCsv rs := by simp [toCsv]
-    rw [htext]
-    have hrec' : readRecord ((c :: t).length + 1) (c :: t) [] = (r, toCsv rs) := by
-      rw [← hT]
-      simpa [writeRow] using hrec
-    rw [hT]
-    simp only [readAll, h1, h2, Bool.false_eq_true, if_false, hrec', hk, beq_self_eq_true, if_true]
-    rw [ih hrs fu (r :: acc) (by simp at hf; omega)]
+    rw [readAll_step d hd r hr rs fu (some k) acc]
+    simp only [hk, beq_self_eq_true, if_true]
+    rw [ih (fun x hx => hok x (List.mem_cons_of_mem _ hx)) fu (r :: acc) (by simp at hf; omega)]
     simp
 
 /-! ### line-end normalisation leaves the writer's output alone -/
@@ -216,6 +267,9 @@ theorem norm_cr_cons (c d : Char) (r : List Char) (hc : (c == '\r') = true) (hd 
     normCRLF (c :: d :: r) = c :: normCRLF (d :: r) := by
   rw [normCRLF.eq_def]; simp [hc, hd]
 
+theorem norm_crlf (r : List Char) : normCRLF ('\r' :: '\n' :: r) = '\n' :: normCRLF r := by
+  rw [normCRLF.eq_def]; simp
+
 theorem norm_plain (f rest : List Char) (h : ∀ c ∈ f, (c == '\r') = false) :
     normCRLF (f ++ rest) = f ++ normCRLF rest := by
   induction f with
@@ -224,6 +278,10 @@ theorem norm_plain (f rest : List Char) (h : ∀ c ∈ f, (c == '\r') = false) :
     have hc := h c (List.mem_cons_self ..)
     rw [List.cons_append, norm_cons_ne _ _ hc, ih (fun x hx => h x (List.mem_cons_of_mem _ hx))]
     rfl
+
+theorem norm_no_cr (t : List Char) (h : ∀ c ∈ t, (c == '\r') = false) : normCRLF t = t := by
+  have := norm_plain t [] h
+  simpa [norm_nil] using this
 
 theorem norm_esc (f : List Char) (hf : noCRLF f = true) (rest : List Char) :
     normCRLF (f.flatMap escQuote ++ '"' :: rest) = f.flatMap escQuote ++ '"' :: normCRLF rest := by
@@ -242,8 +300,7 @@ theorem norm_esc (f : List Char) (hf : noCRLF f = true) (rest : List Char) :
     · have hb : (c == '"') = false := by simpa using hq
       simp only [List.flatMap_cons, escQuote, hb, Bool.false_eq_true, if_false, List.cons_append, List.nil_append]
       by_cases hr : (c == '\r') = true
-      · -- the next written character is not a line feed
-        have hfirst : ∃ e tl, cs.flatMap escQuote ++ '"' :: rest = e :: tl ∧ (e == '\n') = false := by
+      · have hfirst : ∃ e tl, cs.flatMap escQuote ++ '"' :: rest = e :: tl ∧ (e == '\n') = false := by
           cases cs with
           | nil => exact ⟨'"', rest, by simp, by decide⟩
           | cons d ds =>
@@ -253,7 +310,8 @@ theorem norm_esc (f : List Char) (hf : noCRLF f = true) (rest : List Char) :
               · rw [hr] at h; cases h
               · exact h
             by_cases hdq : d = '"'
-            · subst hdq; exact ⟨'"', _, by simp only [List.flatMap_cons, escQuote, beq_self_eq_true, if_true, List.cons_append]; rfl, by decide⟩
+            · subst hdq
+              exact ⟨'"', _, by simp only [List.flatMap_cons, escQuote, beq_self_eq_true, if_true, List.cons_append]; rfl, by decide⟩
             · have : (d == '"') = false := by simpa using hdq
               exact ⟨d, _, by simp only [List.flatMap_cons, escQuote, this, Bool.false_eq_true, if_false, List.cons_append, List.nil_append]; rfl, hd⟩
         obtain ⟨e, tl, he, hen⟩ := hfirst
@@ -264,131 +322,98 @@ theorem norm_esc (f : List Char) (hf : noCRLF f = true) (rest : List Char) :
 
 def FieldOK (f : Field) : Prop := noCRLF f = true
 
-theorem norm_writeField (f : Field) (hf : FieldOK f) (rest : List Char) :
-    normCRLF (writeField f ++ rest) = writeField f ++ normCRLF rest := by
+theorem norm_writeField (d : Char) (f : Field) (hf : FieldOK f) (rest : List Char) :
+    normCRLF (writeField d f ++ rest) = writeField d f ++ normCRLF rest := by
   unfold writeField
-  by_cases hq : needsQuotes f = true
-  · simp only [hq, if_true, List.cons_append, List.append_assoc, List.singleton_append]
+  by_cases hq : needsQuotes d f = true
+  · simp only [hq, if_true, List.cons_append, List.append_assoc]
     rw [norm_cons_ne '"' _ (by decide), norm_esc f hf]
     simp
-  · have hq' : needsQuotes f = false := by simpa using hq
+  · have hq' : needsQuotes d f = false := by simpa using hq
     simp only [hq', Bool.false_eq_true, if_false]
     apply norm_plain
     intro c hc
-    have := (special_of_not_needs f hq').1 c hc
+    have := (special_of_not_needs d f hq').1 c hc
     simp only [isSpecial, Bool.or_eq_false_iff] at this
     exact this.1.1.2
 
-theorem norm_writeFields (r : Row) (hr : ∀ f ∈ r, FieldOK f) (rest : List Char) :
-    normCRLF (writeFields r ++ '\n' :: rest) = writeFields r ++ '\n' :: normCRLF rest := by
+theorem norm_writeFields (d : Char) (hd : DelimOK d) (r : Row) (hr : ∀ f ∈ r, FieldOK f) (rest : List Char) :
+    normCRLF (writeFields d r ++ '\n' :: rest) = writeFields d r ++ '\n' :: normCRLF rest := by
   induction r with
   | nil => simp [writeFields, norm_cons_ne '\n' rest (by decide)]
   | cons f r ih =>
     rw [writeFields_cons, writeFields_cons]
-    rw [norm_writeField f (hr f (List.mem_cons_self ..))]
+    rw [norm_writeField d f (hr f (List.mem_cons_self ..))]
     by_cases h : r = []
     · subst h; simp [norm_cons_ne '\n' rest (by decide)]
     · simp only [h, if_false]
-      rw [norm_cons_ne ',' _ (by decide), ih (fun x hx => hr x (List.mem_cons_of_mem _ hx))]
+      rw [norm_cons_ne d _ hd.ncr, ih (fun x hx => hr x (List.mem_cons_of_mem _ hx))]
 
-theorem norm_toCsv (rows : List Row) (h : ∀ r ∈ rows, ∀ f ∈ r, FieldOK f) : normCRLF (toCsv rows) = toCsv rows := by
+theorem norm_toCsv (d : Char) (hd : DelimOK d) (rows : List Row) (h : ∀ r ∈ rows, ∀ f ∈ r, FieldOK f) :
+    normCRLF (toCsvWith d rows) = toCsvWith d rows := by
   induction rows with
   | nil => exact norm_nil
   | cons r rs ih =>
-    have : toCsv (r :: rs) = writeFields r ++ '\n' :: toCsv rs := by simp [toCsv, writeRow]
-    rw [this, norm_writeFields r (h r (List.mem_cons_self ..)), ih (fun x hx => h x (List.mem_cons_of_mem _ hx))]
+    have : toCsvWith d (r :: rs) = writeFields d r ++ '\n' :: toCsvWith d rs := by simp [toCsvWith, writeRow]
+    rw [this, norm_writeFields d hd r (h r (List.mem_cons_self ..)), ih (fun x hx => h x (List.mem_cons_of_mem _ hx))]
 
 /-- a table in the domain: all rows `RowOK`, of one length, no field with CR LF -/
 def TableOK (rows : List Row) : Prop :=
   (∀ r ∈ rows, RowOK r ∧ ∀ f ∈ r, FieldOK f) ∧ ∀ r ∈ rows, ∀ r' ∈ rows, r.length = r'.length
 
-theorem fromCsv_toCsv (rows : List Row) (h : TableOK rows) : fromCsv (toCsv rows) = some rows := by
-  unfold fromCsv
-  simp only [norm_toCsv rows (fun r hr => (h.1 r hr).2)]
+theorem fromCsvWith_toCsvWith (d : Char) (hd : DelimOK d) (rows : List Row) (h : TableOK rows) :
+    fromCsvWith d (toCsvWith d rows) = some rows := by
+  unfold fromCsvWith
+  simp only [norm_toCsv d hd rows (fun r hr => (h.1 r hr).2)]
   cases rows with
-  | nil => simp [toCsv, readAll]
+  | nil => simp [toCsvWith, readAll]
   | cons r rs =>
     obtain ⟨hr, _⟩ := h.1 r (List.mem_cons_self ..)
-    obtain ⟨c, t, hT, h1, h2⟩ := writeRow_head r hr (toCsv rs)
-    have hrec := readRecord_row r hr.1 ((writeRow r ++ toCsv rs).length + 1) (toCsv rs) []
-      (by have := writeRow_length r; simp only [List.length_append]; omega)
-    have htext : toCsv (r :: rs) = writeRow r ++ toCsv rs := by simp [toCsv]
-    rw [htext]
-    have hrec' : readRecord ((c :: t).length + 1) (c :: t) [] = (r, toCsv rs) := by
-      rw [← hT]
-      simpa [writeRow] using hrec
-    have hrest := readAll_rows r.length rs
+    have hl := toCsv_length d (r :: rs)
+    obtain ⟨fu, hfu⟩ : ∃ fu, (toCsvWith d (r :: rs)).length + 1 = fu + 1 := ⟨_, rfl⟩
+    rw [hfu, readAll_step d hd r hr rs fu none []]
+    simp only
+    rw [readAll_rows d hd r.length rs
       (fun x hx => ⟨(h.1 x (List.mem_cons_of_mem _ hx)).1, h.2 x (List.mem_cons_of_mem _ hx) r (List.mem_cons_self ..)⟩)
-      ((c :: t).length) [r]
-      (by
-        have h1 := toCsv_length rs
-        have h2 : (c :: t).length = (writeRow r).length + (toCsv rs).length := by rw [← hT]; simp
-        have h3 : 1 ≤ (writeRow r).length := by simp [writeRow]
-        omega)
-    rw [hT]
-    simp only [readAll, h1, h2, Bool.false_eq_true, if_false, hrec', hrest]
+      fu [r] (by simp only [List.length_cons] at hl; omega)]
     simp
+
+theorem fromCsv_toCsv (rows : List Row) (h : TableOK rows) : fromCsv (toCsv rows) = some rows :=
+  fromCsvWith_toCsvWith ',' delimOK_comma rows h
 
 /-! ### ragged tables are rejected -/
 
-theorem readAll_step (r : Row) (hr : RowOK r) (rs : List Row) (fu : Nat) (n : Option Nat) (acc : List Row) :
-    readAll (fu + 1) (toCsv (r :: rs)) n acc =
-      match n with
-      | none => readAll fu (toCsv rs) (some r.length) (r :: acc)
-      | some k => if r.length == k then readAll fu (toCsv rs) n (r :: acc) else none := by
-  obtain ⟨c, t, hT, h1, h2⟩ := writeRow_head r hr (toCsv rs)
-  have hrec := readRecord_row r hr.1 ((writeRow r ++ toCsv rs).length + 1) (toCsv rs) []
-    (by have := writeRow_length r; simp only [List.length_append]; omega)
-  have htext : toCsv (r :: rs) = writeRow r ++ toCsv rs := by simp [toCsv]
-  have hrec' : readRecord ((c :: t).length + 1) (c :: t) [] = (r, toCsv rs) := by
-    rw [← hT]
-    simpa [writeRow] using hrec
-  rw [htext, hT]
-  simp only [readAll, h1, h2, Bool.false_eq_true, if_false, hrec']
-  cases n <;> rfl
-
-theorem readAll_ragged (k : Nat) (pre : List Row) (hpre : ∀ r ∈ pre, RowOK r ∧ r.length = k)
+theorem readAll_ragged (d : Char) (hd : DelimOK d) (k : Nat) (pre : List Row) (hpre : ∀ r ∈ pre, RowOK r ∧ r.length = k)
     (r : Row) (hr : RowOK r) (hlen : r.length ≠ k) (post : List Row) :
     ∀ (fuel : Nat) (acc : List Row), pre.length + 1 < fuel →
-      readAll fuel (toCsv (pre ++ r :: post)) (some k) acc = none := by
+      readAll d fuel (toCsvWith d (pre ++ r :: post)) (some k) acc = none := by
   induction pre with
   | nil =>
     intro fuel acc hf
     obtain ⟨fu, rfl⟩ : ∃ fu, fuel = fu + 1 := ⟨fuel - 1, by simp at hf; omega⟩
-    rw [List.nil_append, readAll_step r hr post fu (some k) acc]
+    rw [List.nil_append, readAll_step d hd r hr post fu (some k) acc]
     simp [hlen]
   | cons p ps ih =>
     intro fuel acc hf
     obtain ⟨fu, rfl⟩ : ∃ fu, fuel = fu + 1 := ⟨fuel - 1, by simp at hf; omega⟩
     obtain ⟨hp, hk⟩ := hpre p (List.mem_cons_self ..)
-    rw [List.cons_append, readAll_step p hp (ps ++ r :: post) fu (some k) acc]
+    rw [List.cons_append, readAll_step d hd p hp (ps ++ r :: post) fu (some k) acc]
     simp only [hk, beq_self_eq_true, if_true]
     exact ih (fun x hx => hpre x (List.mem_cons_of_mem _ hx)) fu (p :: acc) (by simp at hf; omega)
 
-/-- a table whose rows are fine one by one but do not all have the length of the first row is an
-    error (ErrFieldCount) -/
 theorem fromCsv_ragged (first : Row) (pre : List Row) (r : Row) (post : List Row)
     (hfields : ∀ x ∈ first :: (pre ++ r :: post), ∀ f ∈ x, FieldOK f)
     (hfirst : RowOK first) (hpre : ∀ x ∈ pre, RowOK x ∧ x.length = first.length)
     (hr : RowOK r) (hlen : r.length ≠ first.length) :
     fromCsv (toCsv (first :: (pre ++ r :: post))) = none := by
-  unfold fromCsv
-  simp only [norm_toCsv _ hfields]
-  have hl : (first :: (pre ++ r :: post)).length ≤ (toCsv (first :: (pre ++ r :: post))).length := toCsv_length _
-  obtain ⟨fu, hfu⟩ : ∃ fu, (toCsv (first :: (pre ++ r :: post))).length + 1 = fu + 1 := ⟨_, rfl⟩
-  rw [hfu, readAll_step first hfirst (pre ++ r :: post) fu none []]
+  unfold fromCsv fromCsvWith toCsv
+  simp only [norm_toCsv ',' delimOK_comma _ hfields]
+  have hl := toCsv_length ',' (first :: (pre ++ r :: post))
+  obtain ⟨fu, hfu⟩ : ∃ fu, (toCsvWith ',' (first :: (pre ++ r :: post))).length + 1 = fu + 1 := ⟨_, rfl⟩
+  rw [hfu, readAll_step ',' delimOK_comma first hfirst (pre ++ r :: post) fu none []]
   simp only
-  exact readAll_ragged first.length pre hpre r hr hlen post fu [first]
+  exact readAll_ragged ',' delimOK_comma first.length pre hpre r hr hlen post fu [first]
     (by simp only [List.length_cons, List.length_append] at hl; omega)
-
-/-! ### the three excluded classes are necessary -/
-
-theorem norm_crlf (r : List Char) : normCRLF ('\r' :: '\n' :: r) = '\n' :: normCRLF r := by
-  rw [normCRLF.eq_def]; simp
-
-theorem norm_no_cr (t : List Char) (h : ∀ c ∈ t, (c == '\r') = false) : normCRLF t = t := by
-  have := norm_plain t [] h
-  simpa [norm_nil] using this
 
 /-- whenever from_csv accepts the option, to_csv writes with exactly the delimiter from_csv splits at -/
 theorem delim_agree (opt : List UInt8) (c : Char) (h : fromCsvDelim opt = some c) : toCsvDelim opt = some c := by
@@ -399,5 +424,15 @@ theorem delim_agree (opt : List UInt8) (c : Char) (h : fromCsvDelim opt = some c
       simp only [hv, if_true]
       exact h
     · simp [hv, hc] at h
+  · simp [hv] at h
+
+/-- a delimiter from_csv accepts satisfies `DelimOK` -/
+theorem delimOK_of_option (opt : List UInt8) (c : Char) (h : fromCsvDelim opt = some c) : DelimOK c := by
+  simp only [fromCsvDelim] at h
+  by_cases hv : (validDelim (delimOfOption opt) && delimOfOption opt != '#') = true
+  · simp only [hv, if_true, Option.some.injEq] at h
+    subst h
+    simp only [validDelim, Bool.and_eq_true, bne_iff_ne, ne_eq] at hv
+    exact ⟨by simpa using hv.1.1.1.2, by simpa using hv.1.2, by simpa using hv.1.1.2, by simpa using hv.2⟩
   · simp [hv] at h
 end Proofs.C14Csv
